@@ -1,6 +1,7 @@
 import SqlgrepModel.Spec.FloatGrammar
 import SqlgrepModel.Model.DecFloat
 import SqlgrepModel.Lemmas.JsonNumber
+import SqlgrepModel.Lemmas.StrBytes
 /-
 `DecFloat.parseF64N` / `parseF64` (the model's `f64::from_str`, executed by the driver for every number text) against
 the grammar of `Spec/FloatGrammar.lean`:
@@ -578,5 +579,162 @@ theorem FloatD.unique_bits {s : List Char} {v v' : FVal} (h : FloatD s v) (h' : 
   have a := (parseF64_iff s _).2 ⟨v, h, rfl⟩
   have b := (parseF64_iff s _).2 ⟨v', h', rfl⟩
   rw [a] at b; exact Option.some.inj b
+
+/-! ### texts given as code points or as UTF-8 bytes -/
+
+theorem toNat_ofNat_of_lt {c : Nat} (h : c < 0xD800) : (Char.ofNat c).toNat = c := by
+  simp [Char.ofNat, Nat.isValidChar, h, Char.toNat, Char.ofNatAux]
+
+theorem map_toNat_ofNat (t : List Nat) (ht : ∀ c ∈ t, c < 0xD800) : (t.map Char.ofNat).map Char.toNat = t := by
+  induction t with
+  | nil => rfl
+  | cons a t ih =>
+    simp only [List.map_cons, toNat_ofNat_of_lt (ht a (List.mem_cons_self ..)),
+      ih (fun c hc => ht c (List.mem_cons_of_mem _ hc))]
+
+/-- **`parseF64N` decides the grammar** for a text given as code points (or bytes) below the surrogates -/
+theorem parseF64N_iff (t : List Nat) (ht : ∀ c ∈ t, c < 0xD800) (b : Nat) :
+    parseF64N t = some b ↔ ∃ v, FloatD (t.map Char.ofNat) v ∧ bitsOf v = b := by
+  rw [← parseF64_iff]; unfold parseF64; rw [map_toNat_ofNat t ht]
+
+theorem digits_ascii {ds : List Char} (h : Digits ds) : ∀ c ∈ ds, c.toNat < 128 := by
+  intro c hc; have := h c hc; unfold Digit at this; omega
+
+theorem signD_ascii {sg : List Char} {neg : Bool} (h : SignD sg neg) : ∀ c ∈ sg, c.toNat < 128 := by
+  cases h <;> decide
+
+theorem expD_ascii {e : List Char} {ev : Int} (h : ExpD e ev) : ∀ c ∈ e, c.toNat < 128 := by
+  cases h with
+  | none => intro c hc; cases hc
+  | some he hs hd =>
+    intro c hc
+    simp only [List.cons_append, List.mem_cons, List.mem_append] at hc
+    rcases hc with rfl | hc | hc
+    · rcases he with rfl | rfl <;> decide
+    · exact signD_ascii hs c hc
+    · exact digits_ascii hd.2 c hc
+
+theorem numberD_ascii {s : List Char} {m : Nat} {e : Int} (h : NumberD s m e) : ∀ c ∈ s, c.toNat < 128 := by
+  cases h with
+  | int hip hex =>
+    intro c hc
+    rcases List.mem_append.1 hc with hc | hc
+    · exact digits_ascii hip.2 c hc
+    · exact expD_ascii hex c hc
+  | point hip hfp _ hex =>
+    intro c hc
+    simp only [List.mem_append, List.mem_cons] at hc
+    rcases hc with (hc | rfl | hc) | hc
+    · exact digits_ascii hip c hc
+    · decide
+    · exact digits_ascii hfp c hc
+    · exact expD_ascii hex c hc
+
+theorem wordCI_ascii {w s : List Char} (hw : ∀ l ∈ w, Lower l) (h : WordCI w s) : ∀ c ∈ s, c.toNat < 128 := by
+  induction h with
+  | nil => intro c hc; cases hc
+  | @cons l c w s h1 _ ih =>
+    intro x hx
+    rcases List.mem_cons.1 hx with rfl | hx
+    · have := hw l (List.mem_cons_self ..)
+      unfold LetterCI at h1; unfold Lower at this; omega
+    · exact ih (fun y hy => hw y (List.mem_cons_of_mem _ hy)) x hx
+
+/-- every character of a text of the grammar is ASCII -/
+theorem FloatD.ascii {s : List Char} {v : FVal} (h : FloatD s v) : ∀ c ∈ s, c.toNat < 128 := by
+  intro c hc
+  cases h with
+  | number hs hn =>
+    rcases List.mem_append.1 hc with hc | hc
+    · exact signD_ascii hs c hc
+    · exact numberD_ascii hn c hc
+  | inf hs hw =>
+    rcases List.mem_append.1 hc with hc | hc
+    · exact signD_ascii hs c hc
+    · exact wordCI_ascii lower_inf hw c hc
+  | infinity hs hw =>
+    rcases List.mem_append.1 hc with hc | hc
+    · exact signD_ascii hs c hc
+    · exact wordCI_ascii lower_infinity hw c hc
+  | nan hs hw =>
+    rcases List.mem_append.1 hc with hc | hc
+    · exact signD_ascii hs c hc
+    · exact wordCI_ascii lower_nan hw c hc
+
+theorem encodeChar_head (c : Char) : ∃ b t, Utf8.encodeChar c = b :: t ∧ (b < 128 → c.toNat < 128) := by
+  unfold Utf8.encodeChar
+  simp only []
+  split
+  · exact ⟨_, _, rfl, fun _ => by assumption⟩
+  · split
+    · exact ⟨_, _, rfl, fun h => by omega⟩
+    · split
+      · exact ⟨_, _, rfl, fun h => by omega⟩
+      · exact ⟨_, _, rfl, fun h => by omega⟩
+
+theorem char_toNat_lt (c : Char) : c.toNat < 0x110000 := by
+  have := c.valid
+  simp only [UInt32.isValidChar, Nat.isValidChar, Char.toNat] at *
+  omega
+
+theorem encodeChar_byte_lt (c : Char) : ∀ b ∈ Utf8.encodeChar c, b < 256 := by
+  have hc := char_toNat_lt c
+  unfold Utf8.encodeChar
+  simp only []
+  split
+  · intro b hb; simp only [List.mem_singleton] at hb; omega
+  · split
+    · intro b hb; simp only [List.mem_cons, List.not_mem_nil, or_false] at hb; omega
+    · split
+      · intro b hb; simp only [List.mem_cons, List.not_mem_nil, or_false] at hb; omega
+      · intro b hb; simp only [List.mem_cons, List.not_mem_nil, or_false] at hb; omega
+
+theorem encode_byte_lt (cs : List Char) : ∀ b ∈ Utf8.encode cs, b < 256 := by
+  intro b hb
+  unfold Utf8.encode at hb
+  obtain ⟨c, _, hc⟩ := List.mem_flatMap.1 hb
+  exact encodeChar_byte_lt c b hc
+
+/-- a text whose UTF-8 bytes are all below 128 consists of ASCII characters -/
+theorem ascii_of_encode (cs : List Char) (h : ∀ b ∈ Utf8.encode cs, b < 128) : ∀ c ∈ cs, c.toNat < 128 := by
+  induction cs with
+  | nil => intro c hc; cases hc
+  | cons a cs ih =>
+    have he : Utf8.encode (a :: cs) = Utf8.encodeChar a ++ Utf8.encode cs := by simp [Utf8.encode]
+    rw [he] at h
+    intro c hc
+    rcases List.mem_cons.1 hc with rfl | hc
+    · obtain ⟨b, t, hb, hlt⟩ := encodeChar_head c
+      exact hlt (h b (by rw [hb]; simp))
+    · exact ih (fun b hb => h b (List.mem_append_right _ hb)) c hc
+
+theorem map_ofNat_toNat (cs : List Char) : cs.map (Char.ofNat ∘ Char.toNat) = cs := by
+  induction cs with
+  | nil => rfl
+  | cons c cs ih => simp only [List.map_cons, Function.comp, Char.ofNat_toNat]; exact congrArg _ ih
+
+/-- **a REAL text as UTF-8 bytes** (what a capture group, a split field or a CONVERTed JSON string hands to
+`f64::from_str`): the bytes of the text `cs` are accepted with the answer `b` exactly when `cs` is a `Float` of the
+grammar with a denotation whose REAL is `b` -/
+theorem parseF64N_utf8_iff (cs : List Char) (b : Nat) :
+    parseF64N (Utf8.encode cs) = some b ↔ ∃ v, FloatD cs v ∧ bitsOf v = b := by
+  constructor
+  · intro h
+    have hbytes : ∀ c ∈ Utf8.encode cs, c < 0xD800 := by
+      intro c hc
+      have := encode_byte_lt cs c hc
+      omega
+    obtain ⟨v, hv, hb⟩ := (parseF64N_iff _ hbytes b).1 h
+    have hasc : ∀ c ∈ Utf8.encode cs, c < 128 := by
+      intro c hc
+      have := FloatD.ascii hv (Char.ofNat c) (List.mem_map.2 ⟨c, hc, rfl⟩)
+      rwa [toNat_ofNat_of_lt (hbytes c hc)] at this
+    have hcs := ascii_of_encode cs hasc
+    rw [Sqlgrep.encode_ascii cs hcs, List.map_map] at hv
+    rw [map_ofNat_toNat] at hv
+    exact ⟨v, hv, hb⟩
+  · rintro ⟨v, hv, rfl⟩
+    rw [Sqlgrep.encode_ascii cs (FloatD.ascii hv)]
+    exact parseF64N_complete hv
 
 end Sqlgrep.DecFloat
